@@ -12,6 +12,13 @@ use crate::kani_verif_support::*;
 fn pad_expected(s: &SymStr, count: i64, pad: &SymStr, left: bool, out: &mut [char; 8]) -> usize {
     let count = if count < 0 { 0 } else { count as usize };
     let mut n = 0;
+    if pad.n == 0 {
+        // empty pad string: the original string, unpadded (the behaviour the code documents;
+        // the user documentation does not define this case)
+        let mut i = 0;
+        while i < s.n { out[n] = s.chars[i]; n += 1; i += 1; }
+        return n;
+    }
     if s.n >= count {
         let mut i = 0;
         while i < count { out[n] = s.chars[i]; n += 1; i += 1; }
